@@ -605,7 +605,15 @@ func (st *State) scalar(v Val, t types.Type) Term {
 		if len(x.Path) == 0 {
 			return x.Ref
 		}
-		unsup("interior pointer escapes")
+		// an interior pointer leaving the function: an opaque non-nil pointer determined by (object, field).
+		// Reads through it are arbitrary; writes through it are NOT connected to the enclosing object.
+		if st.x.abstract == nil {
+			st.x.abstract = map[string]bool{}
+		}
+		st.x.abstract["interior pointer &("+typeName(x.Root)+")."+fieldNameAt(x.Root, x.Path)+" handed to a callee: the callee is assumed not to write through it"] = true
+		ip := UF(SI, "ip."+sanitize(typeName(x.Root))+"."+sanitize(fieldNameAt(x.Root, x.Path)), x.Ref)
+		st.assume(Neq(ip, TInt(0)))
+		return ip
 	case *PLocal:
 		if len(x.Path) == 0 {
 			return st.spill(x.Cell)
